@@ -158,7 +158,11 @@ pub fn scenario(name: &str, params: &Value) -> Scenario {
                 if let Some(id) = sb.sub_id {
                     e.push(Ev::Deliver(inbound(1, false, 77, &[id], "msg")));
                     // remaining length of two bytes
-                    e.push(Ev::Deliver(inbound(0, false, 0, &[id], &"L".repeat(140))));
+                    // (remaining length of two bytes:) a packet of exactly 512 bytes: one read fills the reader's default chunk to the
+                    // last byte and nothing follows
+                    let p512 = inbound(0, false, 0, &[id], &"X".repeat(500));
+                    let over = p512.encode().len() as i64 - 512;
+                    e.push(Ev::Deliver(inbound(0, false, 0, &[id], &"X".repeat((500 - over) as usize))));
                 }
             }
             // two packets arriving in one read (so that re-chunked reads end inside the second one)
